@@ -199,6 +199,7 @@ def _spoken(ctx, rep, eng):
                 continue
             bad = None
             n = 0
+            missing = {}
             try:
                 summ = Summary([p for run in runs for p in run.paths], want_fields=("hour", "minute"))
                 pn = rule.params[2]
@@ -212,7 +213,7 @@ def _spoken(ctx, rep, eng):
                         res = [r for r in res if _minute_shape_ok(r[2], pn, mi)]
                         n += 1
                         if not res:
-                            bad = bad or "no consistent path for hour {} minute {}".format(h, mi)
+                            missing.setdefault(mi, []).append(h)
                             continue
                         kinds = {r[0] for r in res}
                         if mi:
@@ -227,6 +228,15 @@ def _spoken(ctx, rep, eng):
                             bad = bad or "hour {} gives {} instead of {}".format(h, sorted(got), spec(h))
             except Undecided as e:
                 rep.undecided("spoken-map", c, rule.where, str(e))
+                continue
+            # a minute shape (absent / present) for which the rule-base analysis has no path at any hour
+            # is a shape no producer hands to this rule (e.g. every clock rule fills the minute): nothing
+            # to decide for it.  Paths for some hours only, or for no shape at all, is ignorance.
+            partial = {mi: hs for mi, hs in missing.items() if len(hs) < 24}
+            if bad is None and (partial or (None in missing and 0 in missing)):
+                mi, hs = sorted(partial.items(), key=lambda kv: str(kv[0]))[0] if partial else (None, missing[None])
+                rep.undecided("spoken-map", c, rule.where,
+                              "no consistent path for hour {} minute {}".format(hs[0], mi))
                 continue
             rep.add("spoken-map", c, rule.where, bad is None, bad or "{} cases".format(n))
 
